@@ -1,7 +1,7 @@
 PROPERTY = "C19"
 ENTRY = {
     "text": "HashPrefix.tla is the state machine of one hash-prefix checker (service database, prefix cache with relative entry ages, "
-            "Check / LookupFails / Tick / DbChange) written from the statement: Check is nondeterministic over every observable outcome the statement "
+            "Check / LookupFails / ErrorReply / Tick / DbChange) written from the statement: Check is nondeterministic over every observable outcome the statement "
             "admits (set of 2-byte prefixes disclosed, verdict), with the candidates = name and parents within the last four labels cut at "
             "the ICANN public suffix (the ICANN part underneath a private suffix may or may not be included). TLC explores the complete "
             "graph over <<db, cache>> (9 names of 1..8 labels over 3 colliding prefixes, up to 6 listable hashes incl. the hash of a public "
@@ -17,7 +17,7 @@ ENTRY = {
             "golang.org/x/net/publicsuffix as the instrument for what an ICANN/private suffix is; the mock service is honest by construction. "
             "Package-level names are given in the callers' normal form (lower case, no trailing dot); mixed case goes through CheckHost; "
             "the trailing dot is trimmed in dnsforward and is not exercised here. Question type/class are not compared; a failing lookup service is a fault action of the spec (LookupFails: error to the caller, cache unchanged) driven by a seeded schedule of the mock. "
-            "Finding (fixed in /repo 41c2562): with a CacheSize smaller than one answer's entries a positive result was cached as negative.",
+            "Open finding (fix proposed): a SERVFAIL/REFUSED/NOTIMP reply is cached as 'no hashes under the asked prefixes'. Finding (fixed in /repo 41c2562): with a CacheSize smaller than one answer's entries a positive result was cached as negative.",
     "technique": "TLA+ state machine checked exhaustively by TLC; edge-covering walks replayed into the real code and judged by TLC trace validation; "
                  "random real-code traces validated by TLC",
 }
